@@ -1,5 +1,5 @@
 import MuscleModel.Pulse.Ops
-import MuscleModel.Pulse.Proofs21
+import MuscleModel.Pulse.Proofs22
 
 /-!
 # C20 — Pulse callbacks fire for every due node and never before their time
@@ -703,9 +703,11 @@ PROVED:
 * after ANY quiet history (`QuietOps`: the `script` operations queue request-only actions; `gpt` and `pulse` operations included) `Inv`, `V`
   and the quietness of both queues hold (`inv_v_history_quiet`), so both sweeps terminate with no hypothesis about the state
   (`sweeps_terminate_quiet_history`).
+* EXPLICIT NUMBERS (`sweeps_terminate_quiet_history_explicit`): with `M = opsBound ops`, every `d > M + 1` and every `k ≥ (M + 1) * (M + 2)` suffice
+  for both sweeps after a quiet history.  The engine's node ids are `< 16`, so `M ≤ 16` and `d > 17`, `k ≥ 17 · 18 = 306` suffice — far below the
+  engine's `d = 64`, `k = 100000` — which is why the correspondence runs never print `fuel`.
 STILL MISSING:
-(i) `Inv` and `V` for histories whose scripts are not quiet and that contain `gpt` operations (they need the discipline verdict); an explicit
-    value of the height bound `B` in terms of the history (it exists, `heightLe_of_fsupp`);
+(i) `Inv` and `V` for histories whose scripts are not quiet and that contain `gpt` operations (they need the discipline verdict);
 (ii) scripts that are not quiet (attach changes the height function). -/
 
 /-- fuel `d`: with a height function bounded by `B`, every `ReschedulePulseChild(child, whichList)` call on a node `p` completes with any
@@ -1050,6 +1052,38 @@ example : QuietOps quietSample := by
 
 example : (runOps 1000 8 40 (World.init 1000) quietSample).map (·.log) =
     some [.G 0 10 1000 50, .G 1 10 1000 40, .G 2 10 1000 30, .P 2 35 30, .G 2 35 30 90] := by decide +kernel
+
+/-- EXPLICIT FUEL after any quiet history.  With `M := opsBound ops` (1 + the largest id an `attach` of the history mentions) there is a
+    height function with values `≤ M` (rank compression, `heightLe_explicit`: bound `B = M + 1`) and every child list has at most `M`
+    members, so for EVERY `d > M + 1` and EVERY `k ≥ (M + 1) * (M + 2)` the pulse sweep on any node and the recalculation sweep from any
+    root complete.  (The engine uses node ids `< 16`, so `M ≤ 16`: `d > 17` and `k ≥ 17 · 18 = 306` suffice, against the engine's
+    `d = 64`, `k = 100000`.) -/
+theorem sweeps_terminate_quiet_history_explicit (never d0 k0 d k : Nat) (ops : List Op) (w : World)
+    (hq : QuietOps ops) (hreach : runOps never d0 k0 (World.init never) ops = some w)
+    (hd : opsBound ops + 1 < d) (hk : (opsBound ops + 1) * (opsBound ops + 2) ≤ k) :
+    (∀ root t, ∃ w', managerPulse never d k w root t = some w') ∧
+    (∀ root now, (w.f root).parent = none → ∃ res, managerGpt never d k w root now = some res) := by
+  obtain ⟨hi, hv, hg, hp⟩ := inv_v_history_quiet never d0 k0 ops w hq hreach
+  have h := sweeps_terminate_explicit never (opsBound ops) d k w (finite_support_reachable never d0 k0 ops w hreach) hi hv
+    (finite_height_reachable never d0 k0 ops w hreach) hd hk
+  exact ⟨h.1 hp, h.2 hg⟩
+
+theorem quietSample_quiet : QuietOps quietSample := by
+  intro o ho g c acts he a ha
+  subst he
+  simp [quietSample] at ho
+  obtain ⟨_, _, rfl⟩ := ho
+  simp at ha
+  subst ha
+  rfl
+
+/-- non-vacuity: `opsBound quietSample = 3`, so `d = 5` and `k = 20` suffice in the state `quietSample` reaches -/
+example : opsBound quietSample = 3 := by decide
+
+example (w : World) (h : runOps 1000 8 40 (World.init 1000) quietSample = some w) :
+    (∀ root t, ∃ w', managerPulse 1000 5 20 w root t = some w') ∧
+    (∀ root now, (w.f root).parent = none → ∃ res, managerGpt 1000 5 20 w root now = some res) :=
+  sweeps_terminate_quiet_history_explicit 1000 8 40 5 20 quietSample w quietSample_quiet h (by decide) (by decide)
 
 /-! ### necessity witnesses for the disciplines of the statements that are still partial or conditional -/
 
